@@ -521,8 +521,10 @@ class Interp:
                 raise Unrecognised("for-loop pattern did not match %r" % (x,))
             try:
                 self.ev(body, env2)
-            except Continue:
-                continue
+            except Continue as c:
+                if c.to is None or c.to == own:
+                    continue
+                raise
             except Break as b:
                 if b.to is None or b.to == own:
                     break
@@ -678,27 +680,43 @@ class Interp:
         limit = getattr(self.dom, "loop_limit", 0)
         if not getattr(self.dom, "finite_loops", False) or not limit:
             raise Beyond("loop")
-        own, inner_labels = set(), set()
+        own, inner = set(), set()
 
-        def scan(x, depth):
+        def loop_id(x):
+            """id of a nested loop, read off the `break` its desugaring contains (for / while); None for a plain `loop`"""
+            try:
+                if x.get("k") == "match":
+                    m2 = x["arms"][0]["b"]["b"]["s"][0]["e"]
+                    none = [a for a in m2["arms"] if (a["p"].get("p") or {}).get("n", "").endswith("None")][0]
+                    return none["b"].get("to")
+                if x.get("src") == "While":
+                    return x["b"]["e"]["e"]["s"][0]["e"].get("to")
+            except (KeyError, IndexError, TypeError, AttributeError):
+                pass
+            return None
+
+        def scan(x):
             if isinstance(x, dict):
-                if x.get("k") == "break" and "to" in x and depth == 0:
+                if x.get("k") in ("break", "continue") and "to" in x:
                     own.add(x["to"])
                 if x.get("k") == "block" and "lbl" in x:
-                    inner_labels.add(x["lbl"])
-                d2 = depth + 1 if x.get("k") == "loop" or (x.get("k") == "match" and str(x.get("src", "")).startswith("ForLoop")) else depth
+                    inner.add(x["lbl"])
+                if x.get("k") == "loop" or (x.get("k") == "match" and str(x.get("src", "")).startswith("ForLoop")):
+                    inner.add(loop_id(x))
                 for v in x.values():
-                    scan(v, d2)
+                    scan(v)
             elif isinstance(x, list):
                 for v in x:
-                    scan(v, depth)
-        scan(e["b"], 0)
-        own -= inner_labels
+                    scan(v)
+        scan(e["b"])
+        own -= inner
         for _ in range(limit):
             try:
                 self.ev(e["b"], env)
-            except Continue:
-                continue
+            except Continue as c:
+                if c.to is None or c.to in own:
+                    continue
+                raise
             except Break as b:
                 if b.to is None or b.to in own:
                     return b.v
